@@ -17,7 +17,7 @@ EXPLANATION = (
     "violation. (R12.3) the unique-parent bookkeeping used for list detection forgets an existing parent iff it differs "
     "from the new (subject, predicate) in any component. (R12.4) the `@type` key is chosen only under `p == rdf:type && "
     "obj.is_iri() && !use_rdf_type`. (R12.5) a quad of a named graph always registers its subject under the graph node's "
-    "@graph entry. NOT decided: list detection/suppression, named-graph placement, and every round-trip equality.")
+    "@graph entry. (R12.6) native JSON numbers / booleans are produced only under use_native_types(). NOT decided: list detection/suppression, named-graph placement, and every round-trip equality.")
 
 TABLE = {
     # --- node indexes
@@ -293,8 +293,38 @@ def unique_parent_rule(ck, facts):
                % sorted(table.items()), c.loc)
 
 
+def native_types_rule(ck, facts):
+    """R12.6: literals are converted to native JSON numbers / booleans only under `use_native_types`: in
+    Engine::convert_rdf_object every lossy native conversion attempt (`str::parse` of the lexical form) is dominated by the
+    true edge of `options.use_native_types()`.  (A guard flattened into `native && A || B` lets case B through in the lossless
+    default, and `"1.0E0"^^xsd:double` then comes back as `1`.)"""
+    fns = facts.find_fns(crate="sophia_jsonld", name_re=r"serializer::engine::Engine::<'a, L>::convert_rdf_object$")
+    if len(fns) != 1:
+        ck.bad("R12.6", "R12.6@convert_rdf_object#anchor", "anchor-missing: Engine::convert_rdf_object (%d)" % len(fns))
+        return
+    fn = fns[0]
+    guards = []
+    for bi in range(len(fn.blocks)):
+        bs = bool_switch(fn, bi)
+        if bs and bs[0][0] == "call" and call_name_matches(bs[0][1], r"JsonLdOptions::<LF>::use_native_types$"):
+            guards.append((bi, bs[1]))
+    parses = [(bi, t) for bi, t in fn.calls() if call_name_matches(t, r"^core::str::<impl str>::parse$|str>::parse$")]
+    if not guards or not parses:
+        ck.bad("R12.6", "R12.6@convert_rdf_object#shape", "expected a test of use_native_types() and native conversions (str::parse) in "
+               "convert_rdf_object (found %d / %d)" % (len(guards), len(parses)), fn.loc)
+        return
+    bad = [(bi, t) for bi, t in parses if not any(edge_dominates(fn, g, bi) for g in guards)]
+    if bad:
+        ck.bad("R12.6", "R12.6@convert_rdf_object#unguarded-native-conversion", "a literal can be converted to a native JSON value without "
+               "use_native_types being set (the conversion is lossy: lexical forms such as 1.0E0 or 1.50 do not survive)",
+               "%s:%s" % (bad[0][1]["file"], bad[0][1]["line"]))
+    else:
+        ck.ok("R12.6", "convert_rdf_object: %d native conversions, all under use_native_types() == true" % len(parses))
+
+
 def run(ck, facts, tier):
     facts.require_crates(["sophia_jsonld"])
+    native_types_rule(ck, facts)
     filter_rule(ck, facts)
     unique_parent_rule(ck, facts)
     fns = [f for f in facts.fns.values() if f.crate == "sophia_jsonld" and re.search(r"jsonld/src/(serializer|util_traits)", f.file)]
